@@ -54,6 +54,35 @@ func init() {
 		"vfSharedWrites": vfSharedWrites,
 		"vfFail":        vfFail,
 		"vfTimeouts":    vfTimeouts,
+		// vfOpaque(x): a fresh variable t with the path fact t == x; lemmas proved
+		// "from" selected facts then treat t as an atom
+		"vfOpaque": func(fr *frame, args []value) value {
+			ex := fr.i.ex
+			ex.impure("vfOpaque")
+			x := lift(ex.C, args[0])
+			t := ex.fresh("opq", smt.Real)
+			ex.assume(ex.C.Eq(t, x), true)
+			return fsym(t)
+		},
+		// vfAssertFrom(cond, msg, facts...): prove (facts => cond) WITHOUT the path
+		// condition (sound: the facts are already part of it), then assume cond
+		"vfAssertFrom": func(fr *frame, args []value) value {
+			ex := fr.i.ex
+			ex.impure("vfAssertFrom")
+			ex.flush()
+			cond := boolTerm(ex, args[0])
+			var facts []*smt.Term
+			for _, f := range args[2].([]value) {
+				facts = append(facts, boolTerm(ex, f))
+			}
+			save := ex.pc
+			ex.pc = facts
+			ob := ex.check("lemma", strArg(args[1]), posStr(fr), cond)
+			_ = ob
+			ex.pc = save
+			ex.assume(cond, true)
+			return nil
+		},
 		// vfStub(name, fn): calls of the named function (ssa Function.String(), e.g.
 		// "github.com/deadsy/sdfx/render.mcInterpolate") run fn instead (contract stub)
 		"vfStub": func(fr *frame, args []value) value {
@@ -318,6 +347,7 @@ func sinCos(c *smt.Ctx, a *smt.Term) (*smt.Term, *smt.Term) {
 	s, co := c.Var(ns, smt.Real), c.Var(nc, smt.Real)
 	if fresh {
 		c.Define(c.True(), c.Eq(c.Add(c.Mul(s, s), c.Mul(co, co)), c.RealI(1)))
+		c.Trig = append(c.Trig, smt.TrigPair{Angle: a, Sin: s, Cos: co})
 	}
 	return s, co
 }
